@@ -193,6 +193,12 @@ def gen_cases(tier, seed):
         for part in range(parts):
             yield _case(rev, [S.FLAVOURS[(d + 1) % 3]] * len(rev), [['all', deep, part, parts]])
 
+    # D2. numerals beyond the interpreter's int() digit limit in numeric wildcards
+    n, f = W('n', 'int'), W('f', 'float')
+    for rules in ([R('/a/', n)], [R('/a/', n, '/b'), R('/', W('x'), '/', W('y'), '/b')], [R('/a/', f)], [R('/a', n, '-', W('m', 'int'))]):
+        for digits in (4300, 4301):
+            yield _case(rules, ['angle'] * len(rules), [['longnum', digits]], app=1)
+
     # E. seeded random lists
     rnd = random.Random(seed)
     big = pool + uni
@@ -230,6 +236,12 @@ def _paths(case):
         elif kind == 'list':
             for pth in src[1]:
                 yield pth, True
+        elif kind == 'longnum':
+            # numerals of src[1] digits in every numeric wildcard (the interpreter's int() refuses > 4300 digits)
+            for rule in rules:
+                fill = {'int': '7' * src[1], 'float': '7' * src[1] + '.5'}
+                yield ''.join(seg[1] if S.is_lit(seg) else fill.get(seg[2], 'a') for seg in rule), True
+                yield ''.join(seg[1] if S.is_lit(seg) else '-' + fill.get(seg[2], 'a') for seg in rule), True
         else:
             raise AssertionError(kind)
 
@@ -279,7 +291,7 @@ def _marker_scans(rule, path):
     return found
 
 
-def _diagnose(case, regs, index, path, obs, extra):
+def _diagnose(regs, index, methods, path, obs, extra):
     """Facts about the failing input the FINDINGS recognisers look at (computed on failure only)."""
     p = S.norm(path)
     extra['cr_at_wildcard_start'] = any(p[i] == '\r' for r in regs for i in S.wildcard_starts(r, path))
@@ -292,15 +304,34 @@ def _diagnose(case, regs, index, path, obs, extra):
                 alt = {nm: v for nm, v in zip(S.wild_names(mate), values) if nm is not None}
                 if C.same_params(obs[2], alt):
                     explained = True
+    if extra['cr_at_wildcard_start'] and obs[0] == '405':
+        for r in regs:
+            allow = sorted({methods[k] for k, mate in enumerate(regs) if S.same_route(mate, r)})
+            if allow == list(obs[1]) and _marker_scans(r, path):
+                explained = True
     extra['explained_by_cr_eaten_as_marker'] = explained
     return extra
 
 
-def _compare(level, obs, acc, case, regs, index, path, verb):
+def _safe(v):
+    """Failure records are dumped as JSON: very large integers cannot be printed by the interpreter."""
+    if isinstance(v, int) and not isinstance(v, bool) and v.bit_length() > 400:
+        return 'int of %d bits' % v.bit_length()
+    if isinstance(v, dict):
+        return {k: _safe(x) for k, x in v.items()}
+    if isinstance(v, (list, tuple)):
+        return [_safe(x) for x in v]
+    if isinstance(v, str) and len(v) > 400:
+        return v[:200] + '...(%d characters)' % len(v)
+    return v
+
+
+def _compare(level, obs, acc, regs, index, methods, path, verb):
     def out(clause, **kw):
-        kw = _diagnose(case, regs, index, path, obs, kw)
+        kw = _diagnose(regs, index, methods, path, obs, kw)
         exp = [a[:3] if a[0] == 'ok' else a for a in acc]
-        return fail(level + '.' + clause, path=path, verb=verb, expected=exp, observed=list(obs), **kw)
+        shown = path if len(path) <= 200 else path[:60] + '...(%d characters)...' % len(path) + path[-20:]
+        return fail(level + '.' + clause, path=shown, verb=verb, expected=_safe(exp), observed=_safe(list(obs)), **kw)
     if obs[0] == 'exc':
         return out('exception')
     if acc == [('404',)]:
@@ -367,10 +398,10 @@ def run_case(case):
         for verb in verbs:
             acc = _expected(outcomes, verb, methods, reg)
             obs = C.observe_resolve(router, path, verb)
-            failure = _compare('K1', obs, acc, case, regs, reg, path, verb)
+            failure = _compare('K1', obs, acc, regs, reg, methods, path, verb)
             if failure is None and with_app and small:
                 obs = C.observe_app(app, log, path, verb)
-                failure = _compare('K2', obs, acc, case, regs, reg, path, verb)
+                failure = _compare('K2', obs, acc, regs, reg, methods, path, verb)
             if failure is not None:
                 # a failure of a known class must not hide a different one later in the same case
                 if not _known(failure):
@@ -396,7 +427,15 @@ def _cr_marker(case, failure):
             and not _sibling_names(case, failure))
 
 
+def _int_digit_limit(case, failure):
+    """An int wildcard fed a numeral longer than the interpreter's int() digit limit (4300): the conversion
+    raises ValueError inside the lookup instead of the route being selected (a 500 through the application)."""
+    return (failure.get('clause') in ('K1.exception', 'K2.exception')
+            and 'integer string conversion' in str(failure.get('observed')))
+
+
 FINDINGS = {
+    'C01-int-filter-digit-limit-raises': _int_digit_limit,
     'C01-cr-consumed-as-wildcard-marker': _cr_marker,
     'C01-shared-pattern-first-rule-names': _sibling_names,
 }
